@@ -105,9 +105,10 @@ def inputs(tier, seed, corpus):
         for t in itertools.product(SMALL, repeat=L):
             yield ''.join(t)
     rnd = random.Random(seed)
-    progs = [gen.render(t, ' ') for _, t in corpus] + list(gen.EXTRA_PROGRAMS)
     step = 5 if tier == 'quick' else 1
-    for p in progs[::step]:
+    # the hand-written programs (unusual characters inside tokens etc.) are always all used: sampling them made detection depend on list order
+    progs = [gen.render(t, ' ') for _, t in corpus][::step] + list(gen.EXTRA_PROGRAMS)
+    for p in progs:
         for k in range(0, len(p) + 1, 1 if len(p) < 40 else 3):
             yield p[:k]                                  # truncations
         for _ in range(6 if tier == 'quick' else 20):
